@@ -293,7 +293,9 @@ InitDM == \E k \in (IF Wide THEN {"i"} ELSE {"i", "d"}), o \in {"cdiv", "cmod"} 
             /\ m = [done |-> FALSE, row |-> <<>>, devs |-> {}]
 FillRow == /\ Part = "divmod" /\ ~m.done
            /\ LET row == DMRow(c.kind, c.op, c.a)
-              IN m' = [done |-> TRUE, row |-> row, devs |-> {b \in DOMAIN row : DMShadow(c.kind, c.op, c.a, b) # row[b]}]
+              IN m' = [done |-> TRUE, row |-> row,      \* (no row[b] lookups here: they are linear in TLC)
+                       devs |-> {b \in DMDom(c.kind) : DMDemanded(c.kind, c.op, c.a, b)
+                                                       /\ DMShadow(c.kind, c.op, c.a, b) # DMDemand(c.kind, c.op, c.a, b)}]
            /\ UNCHANGED c
 DMDone == Part = "divmod" /\ m.done
 DMDevs == m.devs
